@@ -70,6 +70,10 @@ def make_world(seed, jitter):
                 if ex[0][0] > 800:
                     cands.append(("extended-start", [(ex[0][0] - rng.randint(420, 600), ex[0][1])] + ex[1:]))
                 cands.append(("extended-end", ex[:-1] + [(ex[-1][0], ex[-1][1] + rng.randint(420, 600))]))
+                # ends 150-280 bp outside the isoform (3-5 times the 50 bp that count as a minor extension; the documentation says 30), no tail
+                if ex[0][0] > 800:
+                    cands.append(("extended-start-150-280", [(ex[0][0] - rng.randint(150, 280), ex[0][1])] + ex[1:]))
+                cands.append(("extended-end-150-280", ex[:-1] + [(ex[-1][0], ex[-1][1] + rng.randint(150, 280))]))
                 # pairs of non-conforming reads that share one intron chain: an end-extended truncated read and a read that retains the
                 # NEXT intron inside its terminal exon (what one of them is found to be says nothing about the other)
                 if ex[0][0] > 800 and ex[3][0] - ex[2][1] - 1 >= 150:
@@ -184,7 +188,7 @@ def run(chk, scratch):
     thorough = chk.tier == "thorough"
     chk.rule = ("worlds with multi-isoform, overlapping (shared exons) and antisense genes on both strands over 3 chromosomes; conforming reads derived from annotated "
                 "isoforms (exact, 5'/3'/both-side truncated, junction jitter <= delta, exonic indels, =/X CIGAR operations with mismatching bases, polyA/polyT at the 3' end, mono-exonic) and non-conforming reads "
-                "(skipped exon >= 150 bp, extra exon, retained intron, intron retained inside a terminal exon by a read sharing its intron chain with an end-extended read, site shifted >= 110 bp, end extended >= 420 bp, terminal block running 350-500 bp into an intron, 5' end extended >= 420 bp on a read whose 3' end carries a polyA/polyT tail, hidden isoforms; half of them with a tolerated 15-40 bp terminal extension on top); matching presets x data types. "
+                "(skipped exon >= 150 bp, extra exon, retained intron, intron retained inside a terminal exon by a read sharing its intron chain with an end-extended read, site shifted >= 110 bp, end extended >= 420 bp or by 150-280 bp (tail-less), terminal block running 350-500 bp into an intron, 5' end extended >= 420 bp on a read whose 3' end carries a polyA/polyT tail, hidden isoforms; half of them with a tolerated 15-40 bp terminal extension on top); matching presets x data types. "
                 "non-trivial = distinct (isoform exon count, read mode, jitter, polyA, preset) among judged reads whose locus has >= 2 isoforms")
     jobs = []
     presets = ["exact", "precise", "default", "loose"]
@@ -279,7 +283,8 @@ def run(chk, scratch):
                     chk.violation("only-compatible-isoform-not-unique:%s" % mode, "%s: read %s has %s as its only compatible isoform, reported %s on %s" %
                                   (desc, rd.name, T.id, atype, sorted(reported)[:4]), wit)
             elif cls in ("skipped-exon", "extra-exon", "retained-intron", "shifted-site", "extended-start", "extended-end", "hidden-isoform",
-                         "extended-5prime-with-tail", "retained-terminal-intron", "end-inside-intron", "extra-exon-beyond-end") or cls.startswith("site-moved-20-30"):
+                         "extended-5prime-with-tail", "retained-terminal-intron", "end-inside-intron", "extra-exon-beyond-end") or cls.startswith("site-moved-20-30") \
+                    or cls.endswith("-150-280"):
                 if not overl:
                     continue
 
@@ -288,7 +293,7 @@ def run(chk, scratch):
                         # preset 'exact' only: a read intron that no intron of the isoform approaches by less than 15 bp at both ends
                         ti = t.introns
                         return any(not any(abs(ri[0] - ii[0]) < 15 and abs(ri[1] - ii[1]) < 15 for ii in ti) for ri in parse.introns_of(aligned))
-                    return compat.hard_difference(t.exons, aligned)
+                    return compat.hard_difference(t.exons, aligned, end_far=140 if cls.endswith("-150-280") else 400)
                 if all(differs(t) for t in overl):
                     judged_n += 1
                     chk.note()
